@@ -311,7 +311,7 @@ type ctxSite struct{ fn, path, bind, built string }
 //     loadTracer, buildCache) and the package-level variables.
 func (p *pkg) emitLifetimes(b *strings.Builder) {
 	var sites []ctxSite
-	var stores, calls, rebinds []string
+	var stores, calls, rebinds, envWrites, loadedStores []string
 	for _, fd := range p.allFuncs() {
 		if fd.Body == nil {
 			continue
@@ -399,6 +399,21 @@ func (p *pkg) emitLifetimes(b *strings.Builder) {
 				}
 			case *ast.AssignStmt:
 				for _, l := range x.Lhs {
+					// writes to the Builder's env: env.f = / env.f[k] = / b.env.f = / l.env.f = / e.f = (methods of env)
+					target := l
+					if ix, ok := target.(*ast.IndexExpr); ok {
+						target = ix.X
+						if sel, ok := ix.X.(*ast.SelectorExpr); ok && sel.Sel.Name == "loaded" {
+							loadedStores = append(loadedStores, fmt.Sprintf("(%s, %s)", coqStr(fname), coqStr(p.src(x))))
+						}
+					}
+					if sel, ok := target.(*ast.SelectorExpr); ok {
+						base := p.src(sel.X)
+						if base == "env" || base == "b.env" || base == "l.env" || base == "fs.env" ||
+							(base == "e" && recvName(fd) == "env") {
+							envWrites = append(envWrites, fmt.Sprintf("(%s, %s)", coqStr(fname), coqStr(p.src(target))))
+						}
+					}
 					if sel, ok := l.(*ast.SelectorExpr); ok && sel.Sel.Name == "built" {
 						stores = append(stores, fmt.Sprintf("(%s, %s)", coqStr(fname), coqStr(p.src(x))))
 					}
@@ -430,6 +445,10 @@ func (p *pkg) emitLifetimes(b *strings.Builder) {
 	fmt.Fprintf(b, "Definition built_stores : list (string * string) :=\n  %s.\n\n", coqList(stores))
 	fmt.Fprintf(b, "Definition build_nodes_calls : list (string * string) :=\n  %s.\n\n", coqList(calls))
 	fmt.Fprintf(b, "Definition build_ctx_rebinds : list string :=\n  %s.\n\n", coqList(rebinds))
+	// every assignment to a field of the Builder's env (function, field), and
+	// every store into a loader's "loaded" map (function, statement)
+	fmt.Fprintf(b, "Definition env_writes : list (string * string) :=\n  %s.\n\n", coqList(envWrites))
+	fmt.Fprintf(b, "Definition loaded_stores : list (string * string) :=\n  %s.\n\n", coqList(loadedStores))
 	for _, s := range []string{"Builder", "env", "buildOpts", "dockerOpts", "buildContext", "loader", "loadTracer", "buildCache"} {
 		fmt.Fprintf(b, "Definition layout_%s : list (string * string * string) :=\n  %s.\n\n",
 			s, coqList(p.structLayout(s)))
